@@ -370,7 +370,15 @@ func genRewrite(r *rand.Rand) logqIn {
 		line := pick(r, []string{"plain", "", "a b"})
 		if r.Intn(2) == 0 {
 			// SGR colour sequences at the start, in the middle and at the end
-			sgr := func() string { return "\x1b[" + pick(r, []string{"0", "31", "1;32", "", "38;5;196"}) + "m" }
+			// (introduced by ESC [ or by the 8-bit CSI U+009B; a line may use only the latter)
+			csi := pick(r, []string{"\x1b[", "\x1b[", "\u009b", "mix"})
+			sgr := func() string {
+				c := csi
+				if c == "mix" {
+					c = pick(r, []string{"\x1b[", "\u009b"})
+				}
+				return c + pick(r, []string{"0", "31", "1;32", "", "38;5;196"}) + "m"
+			}
 			line = pick(r, []string{sgr() + "red" + sgr(), "x" + sgr() + "y", sgr(), "t" + sgr() + sgr() + "u", "[31m not esc"})
 		}
 		rec.Line = B(line)
@@ -434,7 +442,7 @@ func genRewrite(r *rand.Rand) logqIn {
 			if m.Op == "eq" || m.Op == "neq" {
 				m.Val = B(pick(r, vals))
 			} else {
-				re := genRe(r, 2, "xyX ")
+				re := genReA(r, 2, "xyX ")
 				m.Val = B(re.Text())
 				m.Re, _ = json.Marshal(re)
 			}
